@@ -208,6 +208,100 @@ Theorem C15_config_bound : forall (c : lim_config) (o : opts) (k : lim_addr) (t0
 Proof. exact config_bound. Qed.
 Print Assumptions C15_config_bound.
 
+(* ---- the composed limiter: global bucket + per-subnet buckets (resourceLimiter.AllowN), round 4 ----
+
+   [rl_of_config c t0] is the resourceLimiter of a configuration WITH its global bucket (rate = burst = global_limit, when
+   > 0); [rl_allow] consults the global bucket first and only then the client limiter; [rl_decisions r h] are the results
+   (RlOk | RlGlobal | RlClient) of a run of arrivals; [glob_verdicts g h] are the answers of the global bucket alone (it is
+   charged by every arrival with a valid address and by nothing else); [rl_decisions_given o t h vs] is the limiter with
+   the global answers GIVEN; [rl_granted] the cost granted (RlOk) for a subnet in a window. *)
+
+(* A query refused by the global limit leaves every client bucket untouched. *)
+Theorem C15_global_refusal_charges_no_client : forall (r : rl) (now : Z) (a : lim_addr) (n : Z),
+  snd (rl_allow r now a n) = RlGlobal -> rl_client (fst (rl_allow r now a n)) = rl_client r.
+Proof. exact global_refusal_no_client_charge. Qed.
+Print Assumptions C15_global_refusal_charges_no_client.
+
+(* The cost GRANTED for a subnet through the composed limiter is bounded by the subnet's own bucket, with or without
+   a global limit, whatever the other subnets do. *)
+Theorem C15_composed_bound : forall (c : lim_config) (k : lim_addr) (t0 t1 now0 : Z) (h : list rl_arrival),
+  0 < lc_limit c -> k <> LANone -> lim_sorted (rl_events h) = true -> t0 <= t1 ->
+  let o := set_default (cfg_opts c) in
+  rl_granted o k t0 t1 h (rl_decisions (rl_of_config c now0) h) * SCALE
+    <= o_burst o * SCALE + o_limit o * (t1 - t0) + (o_limit o - 1).
+Proof. exact composed_bound. Qed.
+Print Assumptions C15_composed_bound.
+
+(* Isolation modulo the global limit ("only the global limit is shared").  For every configuration (global limit on or
+   off), every subnet k and every run of arrivals (any order, any timestamps):
+   (1) the composed limiter is the client limiter fed with the arrivals the global bucket lets through, the global
+       bucket answering on its own;
+   (2) what the clients of k are told = what they are told in the system in which ONLY k's arrivals exist and the
+       global check gives them the answers the shared bucket gave them: other subnets influence k through these
+       answers and through nothing else;
+   (3) the client bucket of k after the run is the bucket after k's own globally passed arrivals alone. *)
+Theorem C15_global_isolation : forall (c : lim_config) (k : lim_addr) (t0 : Z) (h : list rl_arrival),
+  0 < lc_limit c ->
+  let o := set_default (cfg_opts c) in
+  let vs := glob_verdicts (rl_global (rl_of_config c t0)) h in
+  rl_decisions (rl_of_config c t0) h = rl_decisions_given o [] h vs /\
+  rl_results_for c k h (rl_decisions (rl_of_config c t0) h) =
+    rl_results_for c k (filter (rl_from_subnet c k) h)
+      (rl_decisions_given o [] (filter (rl_from_subnet c k) h) (rl_verdicts_for c k h vs)) /\
+  lim_lookup k (rl_table (rl_final (rl_of_config c t0) h)) =
+    lim_lookup k (lim_final o [] (filter (touches o k) (rl_passed h vs))).
+Proof.
+  intros c k t0 h L o vs. split; [|split].
+  - rewrite (rl_of_config_shape c t0 L) at 1. apply rl_decompose.
+  - now apply global_isolation.
+  - now apply client_bucket_own.
+Qed.
+Print Assumptions C15_global_isolation.
+
+(* The clause itself: "a client whose own subnet is within budget is never refused because of traffic from other
+   subnets (only the global limit is shared)".  In any reachable state of the composed limiter (after any run h of
+   arrivals with non-decreasing timestamps and non-negative costs, any subnets, global limit on or off), an arrival that
+   is refused by the CLIENT limit exceeds the subnet's own budget: the cost granted for its subnet so far plus its own
+   cost is more than the burst (no refill counted).  So a subnet for which nothing was granted is never refused by the
+   client limit for a cost <= burst, however much was refused globally before. *)
+Theorem C15_client_refusal_means_own_budget :
+  forall (c : lim_config) (t0 : Z) (h : list rl_arrival) (now : Z) (a : lim_addr) (n tlow : Z),
+  0 < lc_limit c -> lim_sorted (rl_events h) = true ->
+  (forall e, In e h -> tlow <= fst (fst e) <= now /\ 0 <= snd e) -> tlow <= now -> 0 <= n ->
+  snd (rl_allow (rl_final (rl_of_config c t0) h) now a n) = RlClient ->
+  let o := set_default (cfg_opts c) in
+  o_burst o < rl_granted o (cfg_subnet c a) tlow now h (rl_decisions (rl_of_config c t0) h) + n.
+Proof. exact composed_refusal_own_budget. Qed.
+Print Assumptions C15_client_refusal_means_own_budget.
+
+(* With the WRONG order (client bucket first, then the global one: [rl_allow_client_first]) all of this fails.
+   global 5/s, client 1/s burst 5: five other /24s use up the global bucket, the victim tries five times (refused by the
+   global limit, but each try has consumed one token of its own bucket), 1.1 s later the victim's second query is refused
+   by its CLIENT limit although a cost of 1 was ever granted for it (1 + 1 <= burst 5). *)
+Theorem C15_client_first_refuted :
+  (exists (r : rl) (now : Z) (a : lim_addr) (n : Z),
+     snd (rl_allow_client_first r now a n) = RlGlobal /\
+     rl_client (fst (rl_allow_client_first r now a n)) <> rl_client r) /\
+  (exists (c : lim_config) (t0 : Z) (h : list rl_arrival) (now : Z) (a : lim_addr) (n tlow : Z),
+     0 < lc_limit c /\ lim_sorted (rl_events (h ++ [(now, a, n)])) = true /\
+     (forall e, In e h -> tlow <= fst (fst e) <= now /\ 0 <= snd e) /\ tlow <= now /\ 0 <= n /\
+     last (rl_decisions_client_first (rl_of_config c t0) (h ++ [(now, a, n)])) RlOk = RlClient /\
+     let o := set_default (cfg_opts c) in
+     ~ (o_burst o < rl_granted o (cfg_subnet c a) tlow now h (rl_decisions_client_first (rl_of_config c t0) h) + n)).
+Proof.
+  split.
+  - exists (rl_final (rl_of_config cfw_cfg 0) (firstn 5 cfw_history)), 0, cfw_victim, 1.
+    destruct cfw_witness as (_ & _ & _ & _ & G & _). split; [exact G|exact cfw_charge].
+  - exists cfw_cfg, 0, (firstn 11 cfw_history), 1100000000, cfw_victim, 1, 0.
+    split; [reflexivity|]. split; [vm_compute; reflexivity|]. split.
+    { assert (forallb (fun e : rl_arrival => (0 <=? fst (fst e)) && (fst (fst e) <=? 1100000000) && (0 <=? snd e))
+                (firstn 11 cfw_history) = true) as F by (vm_compute; reflexivity).
+      intros e I. pose proof (proj1 (forallb_forall _ _) F e I) as X. lia. }
+    split; [discriminate|]. split; [discriminate|]. split; [vm_compute; reflexivity|].
+    cbv zeta. vm_compute. intros H. discriminate H.
+Qed.
+Print Assumptions C15_client_first_refuted.
+
 (* ---- concurrent arrivals (Limit/LimiterConc.v) ----
 
    AllowN is called from many goroutines.  [cc_run true] is the interleaving machine of the code: per call
@@ -236,6 +330,13 @@ Proof.
   destruct cc_split_witness as (_ & G & _). rewrite G. vm_compute. intros H. apply H. reflexivity.
 Qed.
 Print Assumptions C15_split_create_refuted.
+
+(* An HTTP request whose client address cannot be determined (the configured client_addr_header does not parse) is
+   answered 400; it is not forwarded and it changes no bucket: it cannot be used to get queries past the limiter. *)
+Theorem C15_unparsable_client_address : forall (r : rl) (now : Z) (l : lim_listener),
+  listener_step r now (ABadAddr l) = (r, OBadRequest) /\ forwards OBadRequest = false.
+Proof. intros r now l. split; reflexivity. Qed.
+Print Assumptions C15_unparsable_client_address.
 
 (* ---- non-vacuity ---- *)
 
@@ -286,3 +387,14 @@ Example C15_config_example :
   map rl_is_ok (rl_decisions (rl_of_config ex_c 0) [(0, ex_6a, 5); (0, ex_6a, 1); (0, ex_6c, 1); (0, ex_6b, 5); (0, ex_6b, 1)])
     = [true; false; false; true; false].
 Proof. vm_compute. repeat split; try reflexivity; intros H; discriminate. Qed.
+
+(* global 5/s, client 1/s burst 5 (the cfw witness): the victim's five tries during the overload are refused by the GLOBAL limit and
+   cost it nothing; 1.1 s later both of its queries are granted; its bucket was never touched by the refusals. *)
+Example C15_global_example :
+  rl_results_for cfw_cfg cfw_key cfw_history (rl_decisions (rl_of_config cfw_cfg 0) cfw_history)
+    = [RlGlobal; RlGlobal; RlGlobal; RlGlobal; RlGlobal; RlOk; RlOk] /\
+  glob_verdicts (rl_global (rl_of_config cfw_cfg 0)) cfw_history
+    = [true; true; true; true; true; false; false; false; false; false; true; true] /\
+  lim_lookup cfw_key (rl_table (rl_final (rl_of_config cfw_cfg 0) (firstn 10 cfw_history))) = None /\
+  rl_granted (set_default (cfg_opts cfw_cfg)) cfw_key 0 1100000000 cfw_history (rl_decisions (rl_of_config cfw_cfg 0) cfw_history) = 2.
+Proof. vm_compute. repeat split; reflexivity. Qed.
